@@ -43,6 +43,8 @@ ASSUMPTIONS = [
     "range samplers with 1 sample and min < max cannot contain both end points: only v[0] = f(x[0]) and min <= x[0] <= max are judged",
     "sampler ranges and periodic arguments are bounded by 1e100 / 1e30 in magnitude",
 ]
+ASAN_MODULES = ["cherab.core.math.mappers", "cherab.core.math.clamp", "cherab.core.math.slice", "cherab.core.math.mask", "cherab.core.math.transform.periodic", "cherab.core.math.transform.cylindrical", "cherab.core.math.samplers"]
+ASAN = dict(cases=4000, workers=8, timecap=240)
 QUICK = dict(cases=4000, workers=2, timecap=45)
 THOROUGH = dict(cases=150000, workers=16, timecap=600)
 REQUIRED = {"received_exact": 5000, "received_computed": 1000, "value_exact": 5000, "vector_rotation": 500,
